@@ -2,7 +2,7 @@
 Spec: Eye.tla (sampling-index arithmetic, model-checked), EyeTrace.tla (the statement's bands and equivariance on recorded estimates)."""
 import random, math, warnings
 import numpy as np
-from ..core import deadline, import_repo
+from ..core import deadline, import_repo, protect
 
 LEVEL = "exploration"
 
@@ -32,7 +32,7 @@ def run(ctx):
     def estimate(y, seed):
         np.random.seed(seed)
         with deadline(300):
-            return GET_EYE(electrical_signal(y), sps_resamp=128)
+            return GET_EYE(protect(electrical_signal(y)), sps_resamp=128)
 
     def fields(e):
         return [e.mu0, e.mu1, e.s0, e.s1, e.threshold, e.t_left, e.t_right, e.t_opt, e.i]
